@@ -8,6 +8,7 @@ package main
 import (
 	"bufio"
 	"bytes"
+	"encoding/binary"
 	"flag"
 	"fmt"
 	"os"
@@ -479,7 +480,8 @@ func fixedCases(rng *hx.Rng) int {
 		Number: 7, Sizes: []uint32{4, 5, 6, 7, 8, 9, 10}, OffKind: 'S', Offs: []uint64{100, 200, 300},
 		HasStss: true, Stss: []uint32{1, 5}, HasSdtp: true, Sdtp: []byte{0, 16, 32, 64, 4, 8, 1}}
 	p := &plan{CttsCalls: []cttsCall{{[]uint32{2}, []int32{0}}, {nil, nil}, {[]uint32{5}, []int32{-3}}},
-		StscCalls: []stscCall{{Kind: 'a', E: [3]uint32{1, 2, 2}}, {Kind: 's', X: 1}, {Kind: 'a', E: [3]uint32{3, 3, 2}}},
+		StscCalls: []stscCall{{Kind: 'a', E: [3]uint32{1, 2, 2}}, {Kind: 's', X: 0}, {Kind: 'a', E: [3]uint32{2, 9, 0}},
+			{Kind: 's', X: 1}, {Kind: 'a', E: [3]uint32{3, 3, 2}}},
 		Modes: [5]byte{'L', 'L', 'L', 'L', 'L'}}
 	qs := queriesOf(rng, r, tbl.Expand(r), qopt{intervals: true, sampleData: true, outOfRange: true, maxAllPairs: 16})
 	total += emitCase("w-ex-histories", "V", r, p, qs)
@@ -685,12 +687,27 @@ func searchTable(rng *hx.Rng, r *tbl.Raw, withOOR bool) {
 	}
 	for _, t := range trace {
 		evals++
-		if strings.Contains(t, "=err/") {
-			fail("CttsBox.AddSampleCountsAndOffset/StscBox.AddEntry", "error-returned", r, t, "err", "ok")
+		// the only call of a well-formed history that must be refused: AddEntry with description id 0
+		wantErr := false
+		if strings.HasPrefix(t, "bs") {
+			if i, e := strconv.Atoi(t[2:strings.Index(t, "=")]); e == nil && i < len(pl.StscCalls) {
+				wantErr = pl.StscCalls[i].Kind == 'a' && pl.StscCalls[i].E[2] == 0
+			}
 		}
+		if gotErr := strings.Contains(t, "=err/"); gotErr && !wantErr {
+			fail("CttsBox.AddSampleCountsAndOffset/StscBox.AddEntry", "error-returned", r, t, "err", "ok")
+		} else if !gotErr && wantErr {
+			fail("StscBox.AddEntry", "zero-description-id-accepted", r, t, "ok", "an error (DecodeStscSR refuses id 0)")
+		}
+	}
+	// whatever the history (calls with id 0 included), the built boxes encode to the table the accepted calls describe
+	evals++
+	if got, want := encodedStsc(stbl.Stsc), fmt.Sprint(r.Stsc); got != want {
+		fail("StscBox.AddEntry/SetSingleSampleDescriptionID", "built-box-does-not-encode-to-its-table", r, "Encode", got, want)
 	}
 	bx := &boxes{stbl: stbl, trak: tbl.Trak(stbl)}
 	x := tbl.Expand(r)
+	before := snapshot(stbl)
 	qs := queriesOf(rng, r, x, qopt{intervals: true, sampleData: true, outOfRange: false, maxAllPairs: 16})
 	zeroMid := false
 	for i, d := range r.SttsD {
@@ -750,6 +767,11 @@ func searchTable(rng *hx.Rng, r *tbl.Raw, withOOR bool) {
 	}
 	// copied sample data: bytes of samples a..b, in memory and lazily with several work buffers (copydata.go)
 	searchCopy(rng, r, x, bx)
+	// C09_queries_pure / C09_copy_pure: no query (CopySampleData included) writes a field of a table box
+	evals++
+	if after := snapshot(stbl); after != before {
+		fail("sample-table queries", "box-state-changed-by-a-query", r, "all queries", trunc(after), trunc(before))
+	}
 	if withOOR {
 		// the library's only unbounded-index query without an error return, on the first number past the table
 		q := fmt.Sprintf("dt:%d", x.N+1)
@@ -784,12 +806,76 @@ func search(seed uint64, n int) {
 				"an error from AddEntry (DecodeStscSR refuses id 0)")
 		}
 	}
+	// the same defect through SetSingleSampleDescriptionID(0): the box had neither a single id nor an id slice
+	{
+		b := &mp4.StscBox{}
+		_ = b.AddEntry(1, 2, 1)
+		_ = b.AddEntry(3, 1, 2)
+		b.SetSingleSampleDescriptionID(0)
+		evals++
+		if got := encodedStsc(b); got != "[[1 2 1] [3 1 2]]" {
+			r := &tbl.Raw{SttsC: []uint32{6}, SttsD: []uint32{10}, StscMode: 'A', Stsc: [][3]uint32{{1, 2, 1}, {3, 1, 2}},
+				Number: 6, Sizes: []uint32{1, 2, 3, 4, 5, 6}, OffKind: 'S', Offs: []uint64{100, 200, 300, 400}}
+			curPlan = "N;E/a1.2.1/a3.1.2/s0;LLLLL"
+			fail("StscBox.AddEntry", "zero-description-id-accepted", r, "Encode", got, "[[1 2 1] [3 1 2]] (id 0 ignored)")
+		}
+	}
 	for i := 0; i < n; i++ {
 		r := tbl.Gen(rng, tbl.DefaultOpt)
 		searchTable(rng, r, i%16 == 0)
 	}
 	fmt.Fprintf(out, "EVALS\t%d\n", evals)
 	out.Flush()
+}
+
+// encodedStsc: the (first chunk, samples per chunk, description id) rows StscBox.Encode writes, "panic" if it panics.
+func encodedStsc(b *mp4.StscBox) string {
+	var rows [][3]uint32
+	p := hx.Try(func() {
+		var buf bytes.Buffer
+		if err := b.Encode(&buf); err != nil {
+			panic("encode error")
+		}
+		body := buf.Bytes()[16:]
+		for i := 0; i+12 <= len(body); i += 12 {
+			rows = append(rows, [3]uint32{binary.BigEndian.Uint32(body[i:]), binary.BigEndian.Uint32(body[i+4:]),
+				binary.BigEndian.Uint32(body[i+8:])})
+		}
+	})
+	if p != "" {
+		return "panic"
+	}
+	return fmt.Sprint(rows)
+}
+
+// snapshot: every field (unexported ones included) of every table box of an stbl, as text.
+func snapshot(s *mp4.StblBox) string {
+	var sb strings.Builder
+	if s.Stts != nil {
+		fmt.Fprintf(&sb, "stts%+v", *s.Stts)
+	}
+	if s.Ctts != nil {
+		fmt.Fprintf(&sb, "ctts%+v", *s.Ctts)
+	}
+	if s.Stsc != nil {
+		fmt.Fprintf(&sb, "stsc%+v", *s.Stsc)
+	}
+	if s.Stsz != nil {
+		fmt.Fprintf(&sb, "stsz%+v", *s.Stsz)
+	}
+	if s.Stco != nil {
+		fmt.Fprintf(&sb, "stco%+v", *s.Stco)
+	}
+	if s.Co64 != nil {
+		fmt.Fprintf(&sb, "co64%+v", *s.Co64)
+	}
+	if s.Stss != nil {
+		fmt.Fprintf(&sb, "stss%+v", *s.Stss)
+	}
+	if s.Sdtp != nil {
+		fmt.Fprintf(&sb, "sdtp%+v", *s.Sdtp)
+	}
+	return sb.String()
 }
 
 // ---------------------------------------------------------------- real files
